@@ -6,6 +6,7 @@ import (
 	"net/url"
 	"os"
 	"path/filepath"
+	"regexp"
 	"sort"
 	"strings"
 
@@ -89,8 +90,9 @@ func c03ExtEcho(ext any) any {
 }
 
 // c03Loader: a fresh loader that resolves external references from the table only.
-// A document loaded with a base location (LoadFromDataWithPath, "/w/<n>/root.json") asks for its
-// resources below that directory: the table is keyed by the part from "ext/" on.
+// A document loaded with a base location (LoadFromDataWithPath, "/w/d/root<n>.json": the documents of one history
+// sit side by side, so that they ask for the same external resources) asks for its resources below that
+// directory: the table is keyed by the part from "ext/" on.
 func c03Loader(table map[string][]byte) *openapi3.Loader {
 	loader := openapi3.NewLoader()
 	loader.IsExternalRefsAllowed = true
@@ -109,7 +111,7 @@ func c03Loader(table map[string][]byte) *openapi3.Loader {
 	return loader
 }
 
-func c03Location(n int) *url.URL { return &url.URL{Path: fmt.Sprintf("/w/%d/root.json", n)} }
+func c03Location(n int) *url.URL { return &url.URL{Path: fmt.Sprintf("/w/d/root%d.json", n)} }
 
 func c03Run(c *Case) []any {
 	var tc c03Case
@@ -176,6 +178,12 @@ func c03Clip(s string) string {
 }
 
 type c03Fail struct{ msg string }
+
+// c03UnquoteIntKeys rewrites block-style mapping keys that are quoted decimal integers without a leading zero
+// ("200": -> 200:), whatever their depth; values and sequence items are left alone.
+var c03IntKey = regexp.MustCompile(`(?m)^(\s*(?:- )*)"([1-9][0-9]{0,8})":( |$)`)
+
+func c03UnquoteIntKeys(y []byte) []byte { return c03IntKey.ReplaceAll(y, []byte("$1$2:$3")) }
 
 func c03Trips3(text []byte, table map[string][]byte) any {
 	load := func(data []byte) (*openapi3.T, error) { return c03Loader(table).LoadFromData(data) }
@@ -282,6 +290,17 @@ func c03Trips3(text []byte, table map[string][]byte) any {
 			}
 			*stage = "marshal"
 			return json.Marshal(d)
+		})
+		// other spellings of the same document that only the YAML reader accepts: the JSON text behind a comment
+		// line (flow style: the JSON reader refuses it, the YAML reader reads flow mappings and sequences), and
+		// block style with the all-digit map keys (status codes) unquoted, as people write them (YAML integers)
+		step("jf", func(stage *string) ([]byte, error) {
+			return reload(stage, append([]byte("# flow style\n"), text...), nil)
+		})
+		step("jk", func(stage *string) ([]byte, error) {
+			*stage = "to_yaml"
+			y, err := oyaml.JSONToYAML(text)
+			return reload(stage, c03UnquoteIntKeys(y), err)
 		})
 		// a loader that reads the root document itself through its reader (LoadFromURI)
 		step("jl", func(stage *string) ([]byte, error) {
@@ -393,6 +412,14 @@ func c03Trips2(text []byte) any {
 			*stage = "to_yaml"
 			y, err := oyaml.JSONToYAML(text)
 			return fromYAML(stage, y, err)
+		})
+		step("jf", func(stage *string) ([]byte, error) {
+			return fromYAML(stage, append([]byte("# flow style\n"), text...), nil)
+		})
+		step("jk", func(stage *string) ([]byte, error) {
+			*stage = "to_yaml"
+			y, err := oyaml.JSONToYAML(text)
+			return fromYAML(stage, c03UnquoteIntKeys(y), err)
 		})
 		// the UnmarshalJSON method itself; the writers: the T by value, the MarshalJSON method itself
 		step("ju", func(stage *string) ([]byte, error) {
